@@ -210,6 +210,15 @@ func run(sc scenario) (triggers []string, err error) {
 	var got []byte
 	calls := 0
 	idleReturns := 0
+	// the moment the connection asks the network for more it must not be sitting on a complete frame it has not
+	// handed out: on a socket without read deadline (net/http sets none) it would block until the peer sends
+	// something else, however long that takes
+	askedWhileHolding := 0
+	conn.BeforeRead = func() {
+		if pend := available() - len(got); pend > 0 && askedWhileHolding == 0 {
+			askedWhileHolding = pend
+		}
+	}
 	for len(got) < len(plain) || conn.Pending() {
 		calls++
 		if calls > 3*len(plain)+5000 { // with a one-byte caller buffer every plaintext byte costs a call
@@ -240,6 +249,9 @@ func run(sc scenario) (triggers []string, err error) {
 		}
 		if conn.IsClosed() {
 			return triggers, fmt.Errorf("connection was closed by the accessory during Read call %d (received %d of %d bytes)", calls, len(got), len(plain))
+		}
+		if askedWhileHolding > 0 {
+			return triggers, fmt.Errorf("during Read call %d the connection asked the network for more bytes while %d plaintext bytes of completely delivered frames were unread: without a read deadline it blocks there until the peer sends something else", calls, askedWhileHolding)
 		}
 		if n == 0 {
 			// allowed only while no complete unread frame has been delivered
@@ -399,6 +411,39 @@ func TestC07Splits(t *testing.T) {
 		step = 7
 	}
 	idx := 0
+	// one message alone on the wire: nothing follows that could complete a read which asks for too much.
+	// Every cut (and every pair of cuts for the tiny messages), with and without idle periods after the pieces.
+	for _, a := range []int{1, 2, 3, 1023, 1024, 1025} {
+		frames := (a + 1023) / 1024
+		total := a + 18*frames
+		var cutsets [][]int
+		for c := 1; c < total; c += step {
+			cutsets = append(cutsets, []int{c})
+		}
+		if a <= 3 {
+			for c1 := 1; c1 < total; c1++ {
+				for c2 := c1 + 1; c2 < total; c2++ {
+					cutsets = append(cutsets, []int{c1, c2})
+				}
+			}
+		}
+		for _, cuts := range cutsets {
+			for _, idle := range [][]int{nil, {1}, {1, 2}, {2}} {
+				idx++
+				if idx%n != k {
+					continue
+				}
+				sc := scenario{MsgLens: []int{a}, Cuts: cuts, IdleAt: idle, BufSizes: []int{4096}}
+				triggers, err := run(sc)
+				record(sc, append(triggers, "single-message-split"))
+				if err != nil {
+					stats.Fail("TestC07Splits", err.Error(), fmt.Sprintf("%+v", sc))
+					t.Errorf("%+v: %v", sc, err)
+					return
+				}
+			}
+		}
+	}
 	for _, a := range sizes {
 		for _, b := range sizes {
 			total := a + b + 36
